@@ -88,8 +88,17 @@ def synthetic_schedule(rng):
     el_out = rng.choice(["i32", "i32", "i8", "i16", "i64"])
     shapes = [[S["m"], S["k"]], [S["k"], S["n"]], [S["m"], S["n"]]]
     els = [el_in, el_in, el_out]
-    maps = [amap(nd, [expr("m"), expr("k")]), amap(nd, [expr("k"), expr("n")]), amap(nd, [expr("m"), expr("n")])]
-    types = [f"memref<{s[0]}x{s[1]}x{e}>" for s, e in zip(shapes, els)]
+    exprs = [[expr("m"), expr("k")], [expr("k"), expr("n")], [expr("m"), expr("n")]]
+    unit = rng.random() < 0.25
+    if unit:
+        # operand dimensions the schedule never moves along (batch = 1 and the like): a unit dimension at a random position
+        for o in range(3):
+            if rng.random() < 0.6:
+                pos_u = rng.randrange(len(shapes[o]) + 1)
+                shapes[o].insert(pos_u, 1)
+                exprs[o].insert(pos_u, "0")
+    maps = [amap(nd, e) for e in exprs]
+    types = ["memref<" + "x".join(map(str, s)) + f"x{e}>" for s, e in zip(shapes, els)]
     body = MAC.replace("i8", "IN").replace("i32", "OUT").replace("IN", el_in).replace("OUT", el_out)
     text = f"""builtin.module {{
   func.func @main(%a0: {types[0]}, %a1: {types[1]}, %a2: {types[2]}) {{
@@ -102,7 +111,7 @@ def synthetic_schedule(rng):
   }}
 }}
 """
-    return {"text": text, "kind": "synthetic_matmul" + ("+odd-inner" if odd else ""), "acc": "snax_gemmx", "pre": "insert-accfg-op{accelerator=snax_gemmx}"}
+    return {"text": text, "kind": "synthetic_matmul" + ("+odd-inner" if odd else "") + ("+unit-dims" if unit else ""), "acc": "snax_gemmx", "pre": "insert-accfg-op{accelerator=snax_gemmx}"}
 
 
 def certify(module, case, tiled, res):
